@@ -288,7 +288,7 @@ PROPS['C04'] = dict(
     streams=rules_streams,
     spec_kinds=['SPEC:C04'], corr_kinds=['DIFF:regex', 'DIFF:regex-prepare', 'DIFF:glob', 'DIFF:cramglob', 'DIFF:equal', 'DIFF:no-eol', 'DIFF:escaped'],
     case_format='M r <regex AST, prefix form>|<hex of the expression text>|<hex line content> <1 = final newline>|<matches>   M g <hex glob pattern>|<hex content> <nl>|<matches>|<Cram-style glob matches>   '
-                'M q/p/n/x <hex expression>|<hex line bytes>|<matches>  (q equal, p plain line, n no-eol, x escaped)   M z <hex regex expression>|x<hex of the prepared expression the rule holds> or err   M u <regex AST>|<hex of the expression in user notation>|<hex line> <nl>|<matches>',
+                'M q/p/n/x <hex expression>|<hex line bytes>|<matches>  (q equal, p plain line, n no-eol, x escaped)   M z <hex regex expression>|x<hex of the prepared expression the rule holds> or err   M u <regex AST>|<hex of the expression in user notation>|<hex line> <nl>|<matches>   M k the same with one counted repetition {n} {n,m} {n,} (the tree is the sequence it stands for)',
     rule='regex: random ASTs (depth <= 3: literals incl. metacharacters and a 2-byte character, ., classes, sequence, alternation at top level and nested, star) printed as a user would write them, '
          'lines sampled from the language and mutated; glob: patterns over a b * ? e-acute space . backslash with lines instantiated from the pattern and mutated; '
          'equal/no-eol/escaped: byte lines with 0-2 final newlines, escape sequences, tabs. Distinct by case text',
